@@ -25,7 +25,7 @@ for pid in ALL:
                    "check not built yet in this round (runtime monitoring applies; see DESIGN.md section 6)")})
 m = {
     "version": 1,
-    "setup_cmd": "cd /verif/harness && CARGO_NET_OFFLINE=true cargo build --offline --release",
+    "setup_cmd": "cd /verif/harness && CARGO_NET_OFFLINE=true cargo build --offline --release && CARGO_NET_OFFLINE=true CARGO_TARGET_DIR=/verif/target-simc cargo build --offline --release --bin simc --manifest-path /repo/Cargo.toml",
     "hooks": {
         "guard": "simfony_verif",
         "enable": "RUSTFLAGS='--cfg simfony_verif' (set in /verif/harness/.cargo/config.toml); no hook commits exist: every observation point is public API",
